@@ -91,27 +91,27 @@ def assemble (c : Comp) : Bytes := c.schemeText ++ c.restText
 /-- no byte of `l` is in `bad` -/
 def noneOf (bad : Bytes) (l : Bytes) : Bool := l.all (fun b => !bad.contains b)
 
-/-- the first ':' of `l` (if any) is not followed by '/': `s_parse_scheme` will not take a prefix
-of `l` for a scheme -/
+/-- `s_parse_scheme` takes no prefix of `l` for a scheme: `l` has no ':', or its first ':' is not
+followed by '/', or one of the delimiters '/', '?', '#', '@', '[', ']' stands before that ':'
+(this is exactly when uri.c goes on to the authority without consuming anything) -/
 def noSchemeLike (l : Bytes) : Bool :=
   match memchr 58 l with
   | none => true
-  | some i => (l.drop (i + 1)).head? != some 47
+  | some i => (l.drop (i + 1)).head? != some 47 || (l.take i).any isSchemeDelim
 
 /-- the explicit side condition of `c13_parse_assemble` -/
 def Comp.ok (c : Comp) : Bool :=
-  -- scheme without ":/?#@"; without a scheme the text must not look as if it had one
-  (match c.scheme with | some s => noneOf [58, 47, 63, 35, 64] s | none => noSchemeLike c.restText) &&
+  -- scheme without ":/?#@[]".  Nothing extra is asked of a tuple without scheme: under the other
+  -- conditions its text never looks as if it had one (theorem `noSchemeLike_of_ok`: the first ':' is
+  -- followed by a userinfo byte, '@' or a port digit, or stands behind '@', '[', '/' or '?')
+  (match c.scheme with | some s => noneOf [58, 47, 63, 35, 64, 91, 93] s | none => true) &&
   -- userinfo without "@/?"
   (match c.userinfo with | some u => noneOf [64, 47, 63] u | none => true) &&
   -- host without "/?:@[]", or bracketed text without "]/?@"
   (if c.ipv6 then noneOf [93, 47, 63, 64] c.host else noneOf [47, 63, 58, 64, 91, 93] c.host) &&
   (match c.port with | some p => decide (p < 2 ^ 32) | none => true) &&
-  -- path empty or starting with '/', without '?'
+  -- path empty or starting with '/', without '?'; the query is arbitrary
   (c.path.isEmpty || (c.path.head? == some 47 && noneOf [63] c.path)) &&
-  -- an empty path followed by a query: the query must not contain '/' (uri.c ends the authority at
-  -- the first '/' even when a '?' comes first)
-  (!c.path.isEmpty || (match c.query with | some q => noneOf [47] q | none => true)) &&
   -- the empty text is not a URI
   !c.restText.isEmpty
 
